@@ -139,9 +139,26 @@ def find_id_loc(run, twin=None):
             assume(ident.n() >= 1)
             sl, sc, shift = z3.Int('sl'), z3.Int('start_col'), z3.Int('shift')
             assume(z3.And(sl >= 1, sc >= 0, shift >= 0))
-            run.concretise = lambda model, ob: ({'input': 'parenthesised import spanning %d lines' % (model.eval(holder['el'] - sl, model_completion=True).as_long() + 1),
+            def conc(model, ob, delim=delim):
+                if 'window-covers' in ob.name:
+                    return conc_window(model, ob)
+                ev = lambda t: model.eval(t, model_completion=True).as_long()
+                Wn, idn = ev(W.base.n), ev(ident.base.n)
+                if Wn > 40 or idn > 10:
+                    return None
+                fix = lambda c: chr(c) if (32 <= c < 127 or c == 10) else '?'
+                text = ''.join(fix(ev(W.base.ch(z3.IntVal(i)))) for i in range(Wn))
+                idt = ''.join(fix(ev(ident.base.ch(z3.IntVal(i)))) for i in range(idn))
+                return {'input': {'text': text, 'id': idt, 'start': [1, ev(sc)], 'shift': ev(shift), 'delimeters': delim},
+                        'script': FIND_REPLAY % {'repo': core.REPO, 'text': text, 'ident': idt, 'start': (1, ev(sc)),
+                                                 'shift': ev(shift), 'delim': delim}}
+            nice = lambda c: z3.Or(z3.And(c >= 97, c <= 122), c == 10, c == 32, c == 44)
+            run.small_model_hints = [z3.And(W.base.n <= m, ident.base.n <= 2, shift == 0, *[nice(W.base.ch(i)) for i in range(m)])
+                                     for m in (4, 6)]
+            conc_window = lambda model, ob: ({'input': 'parenthesised import spanning %d lines' % (model.eval(holder['el'] - sl, model_completion=True).as_long() + 1),
                                                  'script': WINDOW_REPLAY % {'repo': core.REPO, 'n': max(0, model.eval(holder['el'] - sl, model_completion=True).as_long() - 1)}}
                                                 if 'window-covers' in ob.name else None)
+            run.concretise = conc
             holder.update(W=W, id=ident, start_col=sc, sl=sl, shift=shift, finds=[], rfinds=[], counts=[],
                           admissible=admissible_spec(W, ident, delim, S))
             # observe the searches the code makes (the values, not their meaning)
